@@ -122,7 +122,14 @@ def check(prop, tier):
     bad_design = [d for d in r["design"] if not d["ok"]]
     if st["tlc_errors"] or bad_design:
         common.machinery("tlc_errors=%s design=%s" % (st["tlc_errors"][:2], bad_design))
-    mine = [f for f in r["findings"] if f["property"] == prop]
+    # the fix-side clause (a rule never edits a token that carries its tag) is evaluated on every fix-run trace
+    import fixfam
+
+    fr = fixfam.collect(tier)
+    fst = fr["stats"]
+    if fst["tlc_errors"] or fst["unfinished"] or [f for f in fr["findings"] if f["clause"].startswith("B_")]:
+        common.machinery("fix-run traces: %s %s" % (fst["tlc_errors"][:2], fst["unfinished"][:3]))
+    mine = [f for f in r["findings"] + fr["findings"] if f["property"] == prop]
     known_hits, new = F.split_known(mine, prop)
     rc = common.report(prop, known_hits, new, lambda f: F.write_replay(prop, f))
     cov = {
@@ -143,6 +150,7 @@ def check(prop, tier):
         "model_drift_lines": st["drift"],
         "from_cache": r.get("cached", False),
         "collection_wall_s": st["wall"],
+        "fix_run_traces_checked_for_C11_NoFixWhereTagged": fst["traces"],
     }
     common.write_evidence(prop, tier, "model_checking", cov, time.time() - t0, len(new),
                           ["docs/code_tags.rst is the reference semantics (CodeTagsOps.tla RefStep)", "tag comments on their own line; the tag-carrying lines themselves are unconstrained",
